@@ -6,6 +6,8 @@ Copyright 2020 William W. Kimball, Jr. MBA MSIS
 import re
 from typing import Any, List
 
+from ruamel.yaml.scalarbool import ScalarBoolean
+
 from yamlpath.enums import (
     AnchorMatches,
     PathSearchMethods,
@@ -37,6 +39,9 @@ class Searches:
         Returns:  (bool) True = comparision passes; False = comparison fails.
         """
         typed_haystack = Nodes.typed_value(haystack)
+        if isinstance(typed_haystack, ScalarBoolean):
+            # Anchored Booleans are wrapped in an int sub-class
+            typed_haystack = bool(typed_haystack)
         typed_needle = Nodes.typed_value(needle)
         needle_type = type(typed_needle)
         matches: bool = False
